@@ -5,7 +5,8 @@
    Entries carry their arrival number (q_id).  Statements only. *)
 From Coq Require Import List Arith Bool.
 From M Require Import Base Queue.
-From P Require Import QueueP.
+From P Require Import QueueP ReentP.
+From M Require Import Flat Reent.
 Import ListNotations.
 
 Section C05.
@@ -89,3 +90,27 @@ Example C05_example :
   | _ => False
   end.
 Proof. vm_compute. split; reflexivity. Qed.
+
+(* ---------- without a queue ---------- *)
+(* An event triggered from a callback is processed immediately and completely (its whole
+   trace follows the triggering callback's item) before the triggering callback returns;
+   if it raises, the triggering callback raises. *)
+Theorem C05_unqueued_nested :
+  forall (ev : env) (nested : model -> event -> nat -> RM bool) (c : ctx) sl err cb p w m' e' tn w' b,
+    r_acts (ev cb p) = [ATrigger m' e'] -> r_raise (ev cb p) = None ->
+    nested m' e' (nested_payload_r p 0) (S p) w = (tn, w', inr b) ->
+    rcall ev nested c sl err cb p w =
+      (mkItem sl cb (c_model c) (rstate_of w (c_model c)) (ctx_arg c) (if c_send c then err else None)
+              (r_ret (ev cb p)) [ATrigger m' e'] :: tn,
+       w', inr (r_ret (ev cb p))).
+Proof. exact rcall_nested. Qed.
+Print Assumptions C05_unqueued_nested.
+
+(* The re-entrant engine is the flat engine of C01/C04 when callbacks perform no action:
+   it refines Event._trigger on the triggered model's state and leaves the world otherwise
+   unchanged — for every machine, environment, model and world. *)
+Theorem C05_reentrant_refines_flat :
+  forall (mc : machine) (ev : env) (nested : model -> event -> nat -> RM bool) (c : ctx),
+    no_acts ev -> forall ts, sim c (trigger_event mc ev c ts) (rtrigger_event mc ev nested c ts).
+Proof. exact rtrigger_event_refines. Qed.
+Print Assumptions C05_reentrant_refines_flat.
